@@ -455,9 +455,13 @@ impl EnvFilter {
         if !self.regex {
             directive.deregexify();
         }
+        // A directive that only names fields (`[{field}]=level`) is both: it
+        // selects events and spans that have the field, and it applies inside
+        // such spans. File it the way parsing a directive string does.
         if let Some(stat) = directive.to_static() {
             self.statics.add(stat)
-        } else {
+        }
+        if directive.is_dynamic() {
             self.has_dynamics = true;
             self.dynamics.add(directive);
         }
